@@ -1,6 +1,8 @@
 """C05 — function outputs are portable: emitted source reloads to an equivalent function (DESIGN §4 C05).
 Decided: the printer inverts the parser construct by construct (necessary for the emitted source to parse and to
 denote the same tree), outputs are validated before they are emitted, binders agree between capture and inlining."""
+from lib.facts import CheckerError
+from lib import hir as H
 from lib.peg import Grammar
 from rules import printers as P
 from rules import c06
@@ -45,9 +47,38 @@ def run(ctx):
     from rules import c04
     ctx.rule("C05.R11", "the capture analysis finds every name the function body reads: same positions as the evaluator's reads, every expression child visited, binder arms work on a copy of the bound set (a parameter of an inner function must not hide a later free occurrence of the same name: it would stay a bare, unbound name in the emitted source)", floor=8)
     c04.free_variable_rule(ctx, "C05.R11", core)
+    # R12: a captured negative number is written as prefix minus applied to a literal
+    ctx.rule("C05.R12", "the emitter writes a negative number (captured or literal) as a bare `-2`, which the grammar reads as prefix minus applied to 2: that is the same number in every operand position only while prefix operators bind tighter than every infix operator, i.e. build_pratt_parser registers the prefix group after all infix groups", floor=1)
+    from rules import c10
+    try:
+        okb, whyb, tail = c10.builder_shape(core)
+        pre_idx = [i for i, ch in enumerate(tail) if any(k == "prefix" and r == "negation" for k, r in ch)]
+        early = [w for w in whyb if "registered before the infix groups" in w and "negation" in w]
+        # a prefix registration inside the loop that registers the infix groups, ahead of the infix registration of the same pass
+        inloop = []
+        fb_ = core.hir_fn("blots_core::precedence::build_pratt_parser")["body"]
+        for fo_ in H.walk(fb_):
+            if H.kind(fo_) != "For":
+                continue
+            ops_ = [n_ for n_ in H.walk(fo_["body"]) if H.kind(n_) == "MethodCall" and n_["name"] == "op"]
+            pre_ = [n_ for n_ in ops_ if any(k_ == "prefix" and r_ == "negation" for k_, r_ in c10.op_chain(n_["args"][0]))]
+            inf_ = [n_ for n_ in ops_ if n_ not in pre_]
+            if pre_ and inf_ and min(x_["sp"][4] for x_ in pre_) < max(x_["sp"][4] for x_ in inf_):
+                inloop.append(H.loc(pre_[0]))
+        if inloop:
+            v12, d12 = False, "prefix minus is registered inside the loop over the infix groups, ahead of an infix registration (%s): the groups registered after it bind tighter than prefix minus, `-2 ^ x` re-reads as -(2 ^ x)" % inloop[0]
+        elif early:
+            v12, d12 = False, "prefix minus is registered before an infix group (%s): `-2 ^ x` re-reads as -(2 ^ x)" % early[0]
+        elif okb and pre_idx:
+            v12, d12 = True, "prefix minus is registered after every infix group (position %d of the registrations that follow the infix loop)" % pre_idx[0]
+        else:
+            v12, d12 = None, "registration order not read: %s" % ("; ".join(whyb) or "no prefix registration found")
+        ctx.inst("C05.R12", "prefix-minus-binds-tightest", v12, d12, "blots-core/src/precedence.rs")
+    except CheckerError as ex_:
+        ctx.inst("C05.R12", "prefix-minus-binds-tightest", None, "not decided: %s" % ex_, None)
     # L8: the reserved function-object key
     ctx.rule("C05.L8", "the function-object key probed by from_json and inserted by to_json is one literal", floor=3)
-    from lib import hir as H
+
     keys = []
     for fn in ("blots_core::values::SerializableValue::from_json", "blots_core::values::SerializableValue::to_json"):
         for n in H.walk(core.hir_fn(fn)["body"]):
